@@ -176,6 +176,9 @@ def enum_manifests(seed):
                 names["files/sub/files/nested.conf"] = "n" * rnd.randrange(1, 20)
                 if rnd.random() < .5:
                     names["files/files.conf"] = "ff"
+            if s % 4 == 1:   # one name under two entry types: files/metadata.xml beside metadata.xml, a distfile called like a patch
+                names["files/metadata.xml"] = "aux copy"
+                names["files/fix.patch"] = "p" * 7
             blank = s % 5 == 4   # a name the whitespace separated format cannot carry: generation must refuse it, not write a broken file
             if blank:
                 names[rnd.choice(("files/a b.patch", "files/tab\there", "read me.txt"))] = "w"
@@ -183,6 +186,8 @@ def enum_manifests(seed):
                 open(os.path.join(d, n), "w").write(data)
             chf_orders = [("size", "blake2b", "sha512"), ("size", "sha512", "blake2b"), ("sha512", "size", "blake2b")]
             dist = {f"pkg-{i}.tar.gz": {"size": rnd.randrange(1, 10**6), "blake2b": rnd.getrandbits(512), "sha512": rnd.getrandbits(512)} for i in range(rnd.choice((0, 1, 3)))}
+            if s % 4 == 1:
+                dist["fix.patch"] = {"size": 12345, "blake2b": rnd.getrandbits(512), "sha512": rnd.getrandbits(512)}
             for thin in (False, True):
                 texts = set()
                 for order in chf_orders:
